@@ -9,15 +9,15 @@ from .lib.mir import AnchorLost
 CONFIGS_QUICK = ["A"]
 CONFIGS_THOROUGH = ["A", "R"]
 TECHNIQUE = "intra-procedural taint (provenance of every value pushed to the output) over all serializer methods; separator literal tables of writer vs reader; support matrix of serialize_*/deserialize_*"
-LEVEL_TEXT = ('Decides clauses C09-a..e: in every method of the URL-encoded Serializer and of its compound serializers, whatever is appended to the output is a '
+LEVEL_TEXT = ('Decides clauses C09-a..f: in every method of the URL-encoded Serializer and of its compound serializers, whatever is appended to the output is a '
               'separator literal (& = ,), the literals true/false, the to_string of a numeric primitive, or the result of percent_encode -- a &str or char parameter '
               'never reaches the output raw; the separators the writer emits are exactly the bytes the reader dispatches on; None/unit are written as the empty '
               'section and read back by testing for it; for every serde data-model kind the serializer supports, the matching deserialize_* is not an unconditional '
               'error; deserialize_char accepts exactly the decoded texts of one Unicode scalar value (decided by the char iterator, not by a byte length); the '
               'sequence reader steps over the `,` the writer puts between elements, raises no `separator missing` error on the path that found the separator, and '
               'decodes each element with the decoder of scalar values; from deserialize_ignored_any no decoding or validating function is reachable (the value of an '
-              'unknown key is skipped raw, so it cannot influence the outcome). Decides these clauses, not round-trip equality for all values (e.g. the comma-'
-              'separated sequence reader).')
+              'unknown key is skipped raw, so it cannot influence the outcome); the `,` between sequence elements is decided by position, not by a test of the text '
+              'written so far. Decides these clauses, not round-trip equality for all values (e.g. the comma-separated sequence reader).')
 
 SER = r"ohkami_lib::serde_urlencoded::ser::URLEncodedSerializer"
 NUMERIC = {"u8", "u16", "u32", "u64", "u128", "usize", "i8", "i16", "i32", "i64", "i128", "isize", "f32", "f64"}
@@ -34,6 +34,7 @@ def run(ck, progs):
         ck.guard("C09-c DECISION char", lambda: c09c(ck, prog))
         ck.guard("C09-d PAIR sequence reader", lambda: c09d(ck, prog))
         ck.guard("C09-e REACH unknown pairs", lambda: c09e(ck, prog))
+        ck.guard("C09-f DECISION element separator", lambda: c09f(ck, prog))
     ck.config = None
 
 
@@ -277,3 +278,29 @@ def c09e(ck, prog):
     ck.ob(R, "ignored-value:skipped-raw", ok, bad[0][2] if bad else roots[0].loc(None),
           "" if ok else "deserialize_ignored_any reaches `%s` (in %s): the value of an unknown key is decoded/validated, so a pair the target does not know (`legacy=caf%%E9`) can make the whole decode fail"
           % (bad[0][1][-70:], bad[0][0][-60:]), how="%d function(s) reached from deserialize_ignored_any, no decoder among their callees" % len(Rr.reached))
+
+
+def c09f(ck, prog):
+    """Whether an element is the first of its sequence is a matter of position. Deciding it from the *content* written so
+    far (`output.ends_with('=')`) confuses `nothing written yet` with `only empty elements written yet`: `["", "y"]` is
+    written `a=y`. The `,` of the sequence/tuple serializers must not be conditioned on a test of the output text."""
+    R = "C09-f DECISION element separator"
+    n = 0
+    for f in prog.fns.values():
+        if f.crate != "ohkami_lib" or not (f.self_ty or "").endswith("URLEncodedSerializer") or f.name not in ("serialize_element", "serialize_field"):
+            continue
+        if not re.search(r"Serialize(Seq|Tuple|TupleStruct|TupleVariant)$", f.trait or ""):
+            continue
+        for c in f.calls():
+            if c.name != "push" or len(c.args) < 2:
+                continue
+            ca = f.const_args(c)
+            if not (len(ca) > 1 and ca[1] and ca[1].get("ch") == ","):
+                continue
+            n += 1
+            onout = [fa for fa in guards.facts_at(f, prog, c.bb) if fa.kind == "boolcall" and re.search(r"\.output\b", decision.describe_deep(f, fa.call.args[0], 4))]
+            ok = not onout
+            ck.ob(R, "%s::%s" % ((f.trait or "").rsplit("::", 1)[-1], f.name), ok, f.loc(c.sp),
+                  "" if ok else "the `,` before a sequence element is pushed depending on `%s` of the text written so far: after an empty first element nothing distinguishes the second element from the first, "
+                  "so `[\"\", \"y\"]` is written `a=y` and reads back as one element" % onout[0].call.name, how="the separator is decided by position (a first-element flag), not by the output text")
+    ck.floor(R, "sequence-like element serializers", n, 3)
